@@ -9,6 +9,7 @@ import random
 
 import torch
 
+from .. import ride  # noqa: E402
 from .. import bmgen, env, probes, zoo
 from torchsde._brownian import brownian_interval as bi
 
@@ -19,7 +20,7 @@ RULE = ("case = (configuration, wrapper, history seed) or an end-to-end adjoint 
         "or >= 4 backward queries matched forward intervals (adjoint cases); distinct = distinct case keys")
 ASSUMPTIONS = ["bit-identity is demanded for identical (ta, tb) floats and identical flags; W must also agree "
                "bitwise between different flag combinations of the same interval"]
-REQUIRED_COUNTERS = ["repeats", "repeats_after_eviction", "repeats_after_refinement", "repeats_recomputed",
+REQUIRED_COUNTERS = ["ride_c05_repeats", "repeats", "repeats_after_eviction", "repeats_after_refinement", "repeats_recomputed",
                      "adjoint_matched_queries", "repeats_with_A", "repeats_cache0", "point_repeats",
                      "default_dtype_flipping_cases", "second_backward_passes",
                      "caller_tensors_checked"]
@@ -41,6 +42,7 @@ def cases(tier, seed):
         out.append({"key": f"o{i}", "kind": "object", "cfg": cfg, "hseed": crng.randrange(10 ** 9)})
     for i in range(na):
         out.append({"key": f"adj{i}", "kind": "adjoint", "idx": i, "seed": seed, "cost": 3.0})
+    out += ride.cases_for("C05", tier, seed)  # the repository's own tests under passive monitors
     return out
 
 
@@ -241,4 +243,6 @@ def run_adjoint(case):
 
 
 def run_case(case):
+    if case.get("kind") == "ride":
+        return ride.run_case(case)
     return run_object(case) if case["kind"] == "object" else run_adjoint(case)
